@@ -1410,9 +1410,40 @@ fn one_case(c: &mut Ctx, rt: &tokio::runtime::Runtime, fam: &str, idx: u64) {
                 refo.verdict = if refo.finished { Verdict::Unspecified("bad-message-after-complete-transfer") } else { Verdict::Invalid("bad-message") };
             }
             let recv = receive(rt, &rz, &query, &fm, true);
-            if judge(&mut k, &format!("packaging {:?}", pk), kind, &recv, &refo, &pre, Some(f.kind)) {
+            let judged = judge(&mut k, &format!("packaging {:?}", pk), kind, &recv, &refo, &pre, Some(f.kind));
+            if judged {
                 k.c.count(&format!("fault:{}", f.kind), 1);
                 k.c.eval(&("fault", kind, f.kind, recv.accepted, recv.updates.min(6), refo.states.len().min(3)));
+            }
+            // aftermath: a refused or aborted transfer leaves nothing behind that a later,
+            // unrelated transfer could publish. The zone stands at the version it had before or
+            // at one a completed step of the refused transfer committed; the later transfer
+            // only adds one record to that.
+            let now: Content = recv.seen.last().map(|s| s.iter().cloned().collect()).unwrap_or_default();
+            let at = vs.iter().position(|v| !now.is_empty() && content(v) == now);
+            if let (true, false, true, Some(at)) = (judged, recv.accepted, recv.panic.is_none(), at) {
+                ctx::step("aftermath");
+                let base = vs[at].clone();
+                let pre = now;
+                let mut v2 = base.clone();
+                let mut nm = vec![8u8];
+                nm.extend_from_slice(b"zz-after");
+                nm.extend_from_slice(&apex);
+                if nm.len() <= 255 && v2.get(&nm, 1).is_none() && v2.types_at(&nm).is_empty() {
+                    v2.insert(RRset { name: nm, rtype: 1, ttl: 300, rdatas: vec![vec![192, 0, 2, 77]] });
+                    let s0 = serial_of_rdata(&soa_of(&base).rdata);
+                    set_serial(&mut v2, s0.wrapping_add(1));
+                    let recs2 = ixfr_seq(&mut rng, &[base.clone(), v2.clone()]);
+                    let query2 = mk_query(&apex, T_IXFR, id, s0);
+                    let msgs2 = pack(&recs2, &apex, T_IXFR, id, &Packaging { splits: vec![recs2.len()], question_in_followups: true, compress: false });
+                    let refo2 = ref_run(T_IXFR, &recs2, &pre, &apex);
+                    if refo2.finished && refo2.verdict == Verdict::Valid {
+                        let recv2 = receive(rt, &rz, &query2, &msgs2, false);
+                        if judge(&mut k, &format!("one added record, after a transfer with fault {} was refused", f.kind), "ixfr-after-refused-transfer", &recv2, &refo2, &pre, None) {
+                            k.c.count("aftermath_transfers_checked", 1);
+                        }
+                    }
+                }
             }
         }
     }
@@ -1434,7 +1465,7 @@ pub fn run(c: &mut Ctx) {
         one_case(c, &rt, fam, idx);
     }
     if !c.replaying() {
-        for key in ["commit_diffs_checked", "end_to_end_full", "end_to_end_incremental", "repackaged_full", "repackaged_incremental", "multi_step_incremental", "transfers_accepted", "transfers_rejected", "sender_multi_message_streams"] {
+        for key in ["commit_diffs_checked", "end_to_end_full", "end_to_end_incremental", "repackaged_full", "repackaged_incremental", "multi_step_incremental", "transfers_accepted", "transfers_rejected", "sender_multi_message_streams", "aftermath_transfers_checked"] {
             c.floor(key, 5);
         }
     }
